@@ -860,7 +860,7 @@ where
             hashbrown::hash_map::Entry::Occupied(o) => {
                 if let Some(err) = o.get() {
                     let err = err.clone();
-                    inp.add_alt_err(&before.inner /*&err.pos*/, err.err);
+                    inp.add_alt_err(&err.pos, err.err);
                 } else {
                     let err_span = inp.span_since(&before);
                     // TODO: Is this an appropriate way to handle infinite recursion?
@@ -873,11 +873,17 @@ where
             }
         }
 
+        // Shelter the pending alt so that only what this parser contributes gets memoized
+        let old_alt = inp.take_alt();
         let res = self.parser.go::<M>(inp);
+        let new_alt = inp.take_alt();
+        inp.errors.alt = old_alt;
+        if let Some(new_alt) = &new_alt {
+            inp.add_alt_err(&new_alt.pos, new_alt.err.clone());
+        }
 
         if res.is_err() {
-            let alt = inp.take_alt();
-            inp.memos.insert(key, alt);
+            inp.memos.insert(key, new_alt);
         } else {
             inp.memos.remove(&key);
         }
